@@ -98,9 +98,11 @@ type session struct {
 	newOut   []string
 	faulted  bool // the injected fault has fired
 	errSeen  bool
+	lastErr  string
 	stopped  bool
 	script   []string
 	dead     bool
+	closedCh map[uint]bool
 }
 
 func (s *session) fail(format string, args ...any) {
@@ -386,6 +388,11 @@ func (s *session) withFeeder(f func()) bool {
 	stop := make(chan struct{})
 	done := make(chan int)
 	pend := append([]uint(nil), s.pending...)
+	if s.stopped {
+		// after Stop/cancel a select between the stop signal and a ready feedback is a
+		// coin toss: keep the stepper deterministic by not feeding
+		pend = nil
+	}
 	go func() {
 		sent := 0
 		for _, p := range pend {
@@ -414,6 +421,24 @@ func (s *session) withFeeder(f func()) bool {
 	}
 	s.pending = s.pending[sent-unconsumed:]
 	return ok
+}
+
+// zeroShare: some configured priority currently has a zero strategic share
+func (s *session) zeroShare() bool {
+	_, strategic, _, prios, _ := s.stp.Snapshot()
+	for _, p := range prios {
+		if strategic[p] == 0 {
+			return true
+		}
+	}
+	return false
+}
+
+func (s *session) wct() error {
+	if s.v1 != nil {
+		return s.v1.WaitCalcTactic()
+	}
+	return s.v2.WaitCalcTactic()
 }
 
 func (s *session) roomIn(c uint) bool {
